@@ -1,3 +1,4 @@
+import Agd.Tie.TrC20
 import Agd.Lemmas.Config
 import Agd.Tie.C20
 /-!
@@ -245,3 +246,7 @@ theorem parse_range_uint (v : Int) : Ty.inRange .uint v = true ↔ 0 ≤ v ∧ v
 #print axioms parse_range_uint
 
 end Agd.Config
+#print axioms Agd.Tie.TrC20.translation_complete
+#print axioms Agd.Tie.TrC20.connLimit_total
+#print axioms Agd.Tie.TrC20.connLimit_accepts
+#print axioms Agd.Tie.TrC20.connLimit_tr
